@@ -521,6 +521,10 @@ func (in *Interp) selectResult(instr *ssa.Select, idx int, recv Value, ok bool) 
 
 // ---- timers / virtual clock ----------------------------------------------------
 
+// timerLatency: a runtime timer never fires at its exact instant; the virtual
+// clock delivers it one nanosecond late (the smallest representable latency).
+const timerLatency = 1
+
 type virtClock struct {
 	sec0    *Term // wall seconds since year 1 at path start (symbolic)
 	ns0     *Term // nanoseconds within the second at path start (symbolic, < 1e9)
@@ -552,8 +556,8 @@ func (s *Sched) fireNextTimer() bool {
 		return false
 	}
 	clk := s.in.clock()
-	if best.at > clk.elapsed {
-		clk.elapsed = best.at
+	if best.at+timerLatency > clk.elapsed {
+		clk.elapsed = best.at + timerLatency
 	}
 	s.fire(best)
 	return true
@@ -588,10 +592,12 @@ func (s *Sched) advance(d int64) {
 		if best == nil {
 			break
 		}
-		if best.at > clk.elapsed {
-			clk.elapsed = best.at
+		if best.at+timerLatency > clk.elapsed {
+			clk.elapsed = best.at + timerLatency
 		}
 		s.fire(best)
 	}
-	clk.elapsed = target
+	if target > clk.elapsed {
+		clk.elapsed = target
+	}
 }
